@@ -45,6 +45,7 @@ NTx(t) == [msgs |-> [i \in DOMAIN t.msgs |-> NMsg(t.msgs[i])], signers |-> R(t.s
 
 NAct(a) ==
     CASE a.name = "Deliver" -> [name |-> "Deliver", tx |-> NTx(a.tx), result |-> a.result, failIdx |-> a.failIdx, code |-> a.code, offs |-> a.offs]
+      [] a.name = "Redeliver" -> [name |-> "Redeliver", k |-> a.k, tx |-> NTx(a.tx), result |-> a.result, failIdx |-> a.failIdx, code |-> a.code, offs |-> a.offs]
       [] a.name = "EndBlock" -> [name |-> "EndBlock", halted |-> a.halted, invOk |-> a.invOk]
       [] a.name = "BeginBlock" -> [name |-> "BeginBlock", minted |-> a.minted]
       [] a.name = "RestartBegin" -> [name |-> "RestartBegin", minted |-> a.minted, sameHash |-> a.sameHash]
@@ -157,6 +158,7 @@ StateProps ==
 \* Is the observed step a step of the specification for the logged action?
 Dispatch ==
     CASE act'.name = "Deliver"           -> Deliver(act'.tx)
+      [] act'.name = "Redeliver"         -> act'.k \in DOMAIN delivered /\ delivered[act'.k].tx = act'.tx /\ Redeliver(delivered[act'.k], act'.k)
       [] act'.name = "EndBlock"          -> EndBlock
       [] act'.name = "BeginBlock"        -> BeginBlock(act'.minted)
       [] act'.name = "RestartBegin"      -> RestartBegin(act'.minted)
@@ -189,7 +191,7 @@ TraceInit ==
     /\ didReg = << >> /\ pnDenoms = << >> /\ pnTokens = << >> /\ pnIndex = {} /\ pnSupply = << >>
     /\ bal = [a \in Tracked |-> [d \in Denoms |-> 0]] /\ vest = {} /\ exists = {} /\ supply = [d \in Denoms |-> 0] /\ rest = [d \in Denoms |-> 0]
     /\ grants = {} /\ act = [name |-> "none"]
-    /\ acked = {} /\ accepted = {}
+    /\ acked = {} /\ accepted = {} /\ delivered = << >>
     /\ view = << >> /\ obs = << >> /\ accSnap = {}
 
 TraceNext ==
@@ -199,17 +201,18 @@ TraceNext ==
        /\ Observe(rec)
        /\ acked' = R(rec.acked)
        /\ CASE rec.ev = "init" ->          \* a new trace starts
-                 /\ accepted' = {} /\ accSnap' = {}
+                 /\ accepted' = {} /\ accSnap' = {} /\ delivered' = << >>
                  /\ StateProps
                  /\ Drift("junk", obs'.junk = 0)
             [] rec.ev = "mark" ->          \* tour: the state every following transaction is fired at
-                 /\ accepted' = accepted /\ accSnap' = accepted
+                 /\ accepted' = accepted /\ accSnap' = accepted /\ delivered' = delivered
                  /\ StateProps
             [] rec.ev = "reset" ->         \* tour: the harness went back to the marked (committed) state
-                 /\ accepted' = accSnap /\ accSnap' = accSnap
+                 /\ accepted' = accSnap /\ accSnap' = accSnap /\ delivered' = delivered
                  /\ StateProps
             [] OTHER ->
                  /\ accepted' = accepted \cup NewAccepted(act')
+                 /\ delivered' = delivered \o NewDelivered(act')
                  /\ accSnap' = accSnap
                  /\ StepProps
                  /\ StateProps
